@@ -33,6 +33,8 @@ fn main() {
         Some("check") => cmd_check(&args),
         Some("replay") => cmd_replay(&args),
         Some("digests") => cmd_digests(&args),
+        Some("one") => cmd_one(&args),
+        Some("seedfile") => cmd_seedfile(&args),
         Some("list") => {
             for p in props::all() {
                 println!("{} {}", p.id(), p.world());
@@ -78,6 +80,10 @@ fn cmd_check(args: &[String]) -> i32 {
             return 2;
         }
     };
+    if let Some(j) = arg_val(args, "--journal") {
+        let _ = std::fs::create_dir_all(&j);
+        let _ = JOURNAL_DIR.set(j);
+    }
     println!("starsim check property={} tier={} VERIF_SEED={} runs={} workers={} repo_head={}", prop.id(), tier, seed, nruns, workers, repo_head());
     let br = run_batch(prop, thorough, seed, nruns, workers, &known, wall);
     if !br.harness_errors.is_empty() {
@@ -198,7 +204,11 @@ fn cmd_replay(args: &[String]) -> i32 {
             return 2;
         }
     };
-    let out = execute(prop.as_ref(), Choices::replay(rf.choices.clone()), rf.os_seed, rf.thorough, true);
+    let ch = match rf.gen_seed {
+        Some(seed) => Choices::generate(seed),
+        None => Choices::replay(rf.choices.clone()),
+    };
+    let out = execute(prop.as_ref(), ch, rf.os_seed, rf.thorough, true);
     if let Some(e) = out.harness_error {
         eprintln!("HARNESS-ERROR: {}", e);
         return 2;
@@ -261,4 +271,47 @@ fn cmd_digests(args: &[String]) -> i32 {
         }
     }
     0
+}
+
+/// `one <ID> <index> [--tier T]`: execute exactly one run of a batch in this process (used to
+/// attribute an abort of the batch process to a run).
+fn cmd_one(args: &[String]) -> i32 {
+    let (prop, i) = match (args.get(2).and_then(|p| props::by_id(p)), args.get(3).and_then(|s| s.parse::<u64>().ok())) {
+        (Some(p), Some(i)) => (p, i),
+        _ => return 2,
+    };
+    let thorough = arg_val(args, "--tier").map(|t| t == "thorough").unwrap_or(false);
+    let (s, os) = run_seed(prop.as_ref(), base_seed(), i);
+    let out = execute(prop.as_ref(), Choices::generate(s), os, thorough, false);
+    if out.harness_error.is_some() {
+        return 2;
+    }
+    if out.violation.is_some() { 1 } else { 0 }
+}
+
+/// `seedfile <ID> <index> --out <path>`: write a seed-mode replay file WITHOUT executing the run.
+fn cmd_seedfile(args: &[String]) -> i32 {
+    let (prop, i) = match (args.get(2).and_then(|p| props::by_id(p)), args.get(3).and_then(|s| s.parse::<u64>().ok())) {
+        (Some(p), Some(i)) => (p, i),
+        _ => return 2,
+    };
+    let tier = arg_val(args, "--tier").unwrap_or_else(|| "quick".into());
+    let out = match arg_val(args, "--out") {
+        Some(o) => o,
+        None => return 2,
+    };
+    let (s, os) = run_seed(prop.as_ref(), base_seed(), i);
+    let j = json!({
+        "format": "starsim-replay-1", "property": prop.id(), "world": prop.world(), "tier": tier,
+        "seed": s.to_string(), "os_seed": os.to_string(), "run_index": i, "choices": serde_json::Value::Null,
+        "violation": {"invariant": format!("{}.abort", prop.id().to_lowercase()), "signature": "process_abort", "detail": "the process executing this run terminated abnormally (abort / stack overflow / allocation failure): replay re-generates the run from its seed", "step": 0},
+        "digest": "", "trace": [], "repo_head": repo_head(),
+    });
+    if let Some(dir) = std::path::Path::new(&out).parent() {
+        let _ = std::fs::create_dir_all(dir);
+    }
+    match std::fs::write(&out, serde_json::to_string_pretty(&j).unwrap()) {
+        Ok(()) => 0,
+        Err(_) => 2,
+    }
 }
